@@ -1390,12 +1390,14 @@ async def ensure_aw(aw: Awaitable[T], loop: Loop) -> T:
     if loop.is_closed():
         raise RuntimeError("Target loop is closed!")
 
-    def _loop_thread() -> T:
+    def _loop_thread() -> '_Outcome[T]':
         with _get_loop_lock(loop):
             aio.set_event_loop(loop)
-            return loop.run_until_complete(aw)
+            return loop.run_until_complete(_outcome(aw))
 
-    return await main_loop.run_in_executor(_CROSS_LOOP_POOL, _loop_thread)
+    return _unwrap_outcome(
+        await main_loop.run_in_executor(_CROSS_LOOP_POOL, _loop_thread)
+    )
 
 
 def loop_in_thread(loop: Loop) -> Callable[[], None]:
@@ -1476,8 +1478,38 @@ async def run_aw_threadsafe(aw: Awaitable[T], loop: Loop) -> T:
         This does not handle event loop conflicts.
         Use :func:`ensure_aw` for that.
     """
-    coro = aw if aio.iscoroutine(aw) else _aw_to_coro(aw)
-    return await aio.wrap_future(run_coro_ts(coro, loop))
+    return _unwrap_outcome(
+        await aio.wrap_future(run_coro_ts(_outcome(aw), loop))
+    )
+
+
+_Outcome = Tuple[Optional[Exception], Optional[T]]
+
+
+async def _outcome(aw: Awaitable[T]) -> '_Outcome[T]':
+    """
+    Await the given awaitable and return its exception or its result
+    as a plain value. The futures which carry an outcome from one thread
+    or loop to another replace the exceptions of
+    :mod:`concurrent.futures` (``CancelledError``, ``TimeoutError``,
+    ``InvalidStateError``) with their :mod:`asyncio` counterparts when
+    one of those is what the awaitable raised.
+    """
+    try:
+        return None, await aw
+    except Exception as e:
+        return e, None
+
+
+def _unwrap_outcome(outcome: '_Outcome[T]') -> T:
+    """Raise or return what :func:`_outcome` captured."""
+    exc, result = outcome
+    if exc is not None:
+        try:
+            raise exc
+        finally:
+            del exc, outcome  # Don't keep the traceback <-> frame cycle
+    return cast(T, result)
 
 
 async def _aw_to_coro(aw: Awaitable[T]) -> T:
